@@ -37,6 +37,7 @@ type Config struct {
 	Merge       bool
 	Ints        map[string]int64
 	MaxPaths    int
+	StopViol    int // stop exploring after this many distinct (not known-finding) violations; 0 = never
 	Preempt     int
 	Lockset     bool
 	KnownKF     map[string]bool
@@ -59,6 +60,7 @@ type Engine struct {
 	root    *State
 
 	violations   []Violation
+	stopNow      bool
 	violKeys     map[string]bool
 	inconclusive []string
 	incKeys      map[string]bool
@@ -590,6 +592,17 @@ func (e *Engine) report(s *State, kind, msg string, m Model, viol *Term) {
 	}
 	e.violations = append(e.violations, Violation{Kind: kind, Msg: msg, Pos: pos, Fn: fn,
 		Nondets: e.nondetOut(s, m), Sched: append([]int(nil), s.sched...), Stack: e.stack(s)})
+	if e.cfg.StopViol > 0 && !e.initMode {
+		n := 0
+		for _, v := range e.violations {
+			if !v.KFOnly {
+				n++
+			}
+		}
+		if n >= e.cfg.StopViol {
+			e.stopNow = true
+		}
+	}
 	if e.cfg.Trace {
 		fmt.Fprintf(os.Stderr, "VIOLATION %s %s at %s\n", kind, msg, pos)
 	}
@@ -703,6 +716,9 @@ func (e *Engine) run(s *State, stop *stopPoint, depth int) []*State {
 	for len(work) > 0 {
 		s := work[len(work)-1]
 		work = work[:len(work)-1]
+		if e.stopNow {
+			return out
+		}
 		if e.cfg.MaxPaths > 0 && e.pathsDone+e.pathsPanic > e.cfg.MaxPaths {
 			e.addInconclusive(nil, "max paths exceeded")
 			return out
